@@ -6,7 +6,7 @@ open IrohModel IrohModel.C09
 /-!
 payload (see harness/hrelay/src/bin/c09.rs):
   `B <max> <bps> <period_ms> <op>;…`  ops `a <ms>` | `c <bytes>` (raw consume) | `r <bytes>` (consume unless throttled)
-  `R <cfg> <op>;…`                    ops `a <ms>` | `d <n>` (n more bytes ready) | `s <cfg>` (live reconfig)
+  `R <cfg> <op>;…`                    ops `a <ms>` | `d <n>` (n more bytes ready) | `e` (then EOF) | `x <code>` (then error) | `s <cfg>` (live reconfig)
                                           | `w <ms> <buf>` (`timeout(ms, read(buf))`)
   cfg = `none` | `<bps>,<burst>` | `<bps>,-`
 -/
@@ -28,7 +28,7 @@ def i64? (s : String) : Option Int := do
 
 def u64Max : Nat := 18446744073709551615
 def maxAdvance : Nat := 10000000000000
-def maxAvail : Nat := 1099511627776
+def maxAvail : Nat := 1048576
 def maxBuf : Nat := 1048576
 
 def cfg? (s : String) : Option (Option Cfg) :=
@@ -68,26 +68,48 @@ def runB (rd : Reader) (now : Nat) : List String → List String → Option (Lis
       | some (rd', .err d) => runB rd' now rest (s!"err:{d}" :: acc)
     | _ => none
 
-def runR (r : RL) (now : Nat) : List String → List String → Option (List String)
+/-- The inner reader's byte at stream position `i` (the harness uses the same pattern). -/
+def patternByte (i : Nat) : UInt8 := UInt8.ofNat ((i * 131 + (i / 256) * 17 + 7) % 256)
+
+def patternBytes (pos n : Nat) : List UInt8 := (List.range n).map fun k => patternByte (pos + k)
+
+/-- FNV-1a (32 bit) of the delivered bytes, 8 hex digits. -/
+def fnv32 (bs : List UInt8) : String :=
+  let h : UInt32 := bs.foldl (fun h b => (h ^^^ b.toUInt32) * 16777619) 2166136261
+  let n := h.toNat
+  String.ofList ((List.range 8).map fun k => hexDigit ((n / 16 ^ (7 - k)) % 16))
+
+def runR (r : RLC) (now pos : Nat) : List String → List String → Option (List String)
   | [], acc => some acc.reverse
   | op :: rest, acc =>
     match tokens op with
     | ["a", ms] => do
       let ms ← natLe? ms maxAdvance
-      runR r (now + ms) rest ("ok" :: acc)
+      runR r (now + ms) pos rest ("ok" :: acc)
     | ["d", n] => do
       let n ← natLe? n maxAvail
-      runR { r with avail := r.avail + n } now rest ("ok" :: acc)
+      runR { r with inner := { r.inner with data := r.inner.data ++ patternBytes pos n } } now (pos + n) rest
+        ("ok" :: acc)
+    | ["e"] => runR { r with inner := { r.inner with tail := .eof } } now pos rest ("ok" :: acc)
+    | ["x", c] => do
+      let c ← natLe? c 3
+      runR { r with inner := { r.inner with tail := .err c } } now pos rest ("ok" :: acc)
     | ["s", c] => do
       let c ← cfg? c
-      runR { r with pendingCfg := some c } now rest ("ok" :: acc)
+      runR { r with rl := { r.rl with pendingCfg := some c } } now pos rest ("ok" :: acc)
     | ["w", ms, buf] => do
       let ms ← natLe? ms maxAdvance
       let buf ← natLe? buf maxBuf
       match r.wait now ms buf with
       | none => some ("panic" :: acc).reverse
-      | some (r', now', .ready n) => runR r' now' rest (s!"read:{n}:{now' - now}:{r'.limited}" :: acc)
-      | some (r', now', .pending) => runR r' now' rest (s!"pending:{r'.limited}" :: acc)
+      | some (r', now', out) =>
+        let lim := r'.rl.limited
+        let txt := match out with
+          | .ready bs => s!"read:{bs.length}:{now' - now}:{lim}:{fnv32 bs}"
+          | .eof => if buf = 0 then s!"read:0:{now' - now}:{lim}:{fnv32 []}" else s!"eof:{now' - now}:{lim}"
+          | .err c => s!"err:{c}:{now' - now}:{lim}"
+          | .pending => s!"pending:{lim}"
+        runR r' now' pos rest (txt :: acc)
     | _ => none
 
 /-- Both sides validate the whole op list before running anything. -/
@@ -98,6 +120,8 @@ def validOps (kind : String) (ops : List String) : Bool :=
     | "B", ["c", n] => (natLe? n u64Max).isSome
     | "B", ["r", n] => (natLe? n u64Max).isSome
     | "R", ["d", n] => (natLe? n maxAvail).isSome
+    | "R", ["e"] => true
+    | "R", ["x", c] => (natLe? c 3).isSome
     | "R", ["s", c] => (cfg? c).isSome
     | "R", ["w", ms, buf] => (natLe? ms maxAdvance).isSome && (natLe? buf maxBuf).isSome
     | _, _ => false
@@ -125,7 +149,7 @@ def handleLine (payload : String) : String :=
       match RL.fromWatcher c 0 with
       | none => "new:invalid"
       | some r =>
-        match runR r 0 ops [] with
+        match runR ⟨r, ⟨[], .open⟩⟩ 0 0 ops [] with
         | none => "bad-input"
         | some outs => " ".intercalate ("new:ok" :: outs)
   | _ => "bad-input"
